@@ -3,9 +3,11 @@ package vl1
 import (
 	"context"
 	"fmt"
+	"github.com/NethermindEth/juno/db"
 	"math/rand/v2"
 	"os"
 	"runtime"
+	"slices"
 	"strings"
 	"testing"
 	"time"
@@ -39,6 +41,7 @@ const (
 	opRestart
 	opOutage
 	opStall
+	opFailHeadWrite
 )
 
 type op struct {
@@ -70,7 +73,7 @@ type script struct {
 }
 
 var opNames = map[opKind]string{opMine: "mine", opBurst: "burst", opReorg: "reorg", opFinalise: "finalise", opSubErr: "suberr",
-	opFailWatch: "failwatch", opFailFinal: "failfinalised", opWait: "wait", opCheck: "check", opRestart: "restart", opOutage: "outage", opStall: "stall"}
+	opFailWatch: "failwatch", opFailFinal: "failfinalised", opWait: "wait", opCheck: "check", opRestart: "restart", opOutage: "outage", opStall: "stall", opFailHeadWrite: "fail-head-write"}
 
 func (o op) String() string {
 	switch o.K {
@@ -99,6 +102,8 @@ func (o op) String() string {
 		return fmt.Sprintf("wait(%d)", o.A)
 	case opCheck:
 		return "check"
+	case opFailHeadWrite:
+		return "fail-head-write(the next database write of the L1 head record fails; then a block with a log is mined and finalised)"
 	case opRestart:
 		return fmt.Sprintf("restart(cfg#%d)", o.A)
 	case opOutage:
@@ -273,6 +278,17 @@ func genScript(rng *rand.Rand) *script {
 	return s
 }
 
+// withWriteFailure inserts (own PRNG stream, so the scripts themselves are unchanged) one
+// failing write of the L1 head record into every fourth script.
+func withWriteFailure(s *script, idx int) {
+	rng := lib.Rng("C17/fail-head-write", uint64(idx))
+	if rng.IntN(4) != 0 {
+		return
+	}
+	at := rng.IntN(len(s.Ops) + 1)
+	s.Ops = slices.Insert(s.Ops, at, op{K: opFailHeadWrite})
+}
+
 // ---------------------------------------------------------------- violations
 
 type witness struct {
@@ -401,6 +417,7 @@ func (w *world) onHead(in *instance, h *core.L1Head) {
 		w.st("heads_exactly_at_finalised_boundary", 1)
 	}
 	w.heads = append(w.heads, rec)
+	w.headCount.Add(1)
 }
 
 // checkCatchupComplete runs at the first WatchStateUpdate call of an instance, i.e.
@@ -542,7 +559,51 @@ func (w *world) flush() bool {
 	}
 }
 
+// newProcess: what a node start does - a Blockchain over the database, the L1-head feed
+// (which must only ever carry recorded heads, in order) and, in every other case, RPC-like
+// readers of the recorded head.
+func (w *world) newProcess() {
+	w.bc = blockchain.New(w.hook, &networks.Sepolia)
+	sub := w.bc.SubscribeL1Head()
+	done := make(chan struct{})
+	go func() {
+		defer close(done)
+		for h := range sub.Recv() {
+			rec := copyHead(h)
+			w.mu.Lock()
+			w.feedHeads = append(w.feedHeads, rec)
+			w.mu.Unlock()
+		}
+	}()
+	w.endFeed = func() {
+		sub.Unsubscribe()
+		<-done
+	}
+	if w.idx%2 == 0 {
+		w.startReaders(2)
+	}
+}
+
+func (w *world) endProcess() {
+	w.stopReaders()
+	if w.endFeed != nil {
+		w.endFeed()
+		w.endFeed = nil
+	}
+}
+
 func (w *world) startInstance(cfg instCfg) {
+	w.mu.Lock()
+	fresh := w.nextInst > 0 && (w.idx+w.nextInst)%2 == 0
+	w.mu.Unlock()
+	if fresh {
+		// the restart is a new process: nothing survives but the database
+		w.endProcess()
+		w.newProcess()
+		w.mu.Lock()
+		w.st("restarts_as_a_new_process(fresh_Blockchain_over_the_same_database)", 1)
+		w.mu.Unlock()
+	}
 	w.mu.Lock()
 	in := &instance{id: w.nextInst, cfg: cfg, view: map[int]*viewEntry{}, failChainID: cfg.FailChainID, done: make(chan error, 1)}
 	w.nextInst++
@@ -600,6 +661,76 @@ func (w *world) stopInstance() {
 	}
 	in.subActive = false
 	w.mu.Unlock()
+}
+
+// failHeadWrite: the database refuses the next write of the L1 head record while the client
+// is in live mode and a new log gets finalised. Whatever the client does about it (end with the
+// error - the node's service supervisor then stops the node and the operator restarts it - or
+// carry on), the finalised, delivered, never-removed commit has to be the recorded head at the
+// next logical quiescence.
+func (w *world) failHeadWrite() {
+	w.mu.Lock()
+	in := w.inst
+	ok := in != nil && in.subActive && in.watchOK >= 1 && in.sent == len(in.queue) && w.aborted == "" && !w.violated
+	if ok {
+		w.hook.failPut.Store(1)
+		w.mineBlock(1, false)
+		w.mineBlock(0, false)
+		w.finalise(0, 0)
+		w.tr("the next write of the L1 head record will fail; one log mined, everything finalised")
+	}
+	w.mu.Unlock()
+	if !ok {
+		return
+	}
+	w.flush()
+	ended := false
+	var runErr error
+	t := 0
+	if !w.waitFor("after-head-write-failure", func() bool {
+		select {
+		case runErr = <-in.done:
+			ended = true
+			return true
+		default:
+		}
+		if t == 0 {
+			t = in.loopPolls + 3
+		}
+		return in.sent == len(in.queue) && len(in.sink) == 0 && in.loopPolls >= t
+	}) {
+		return
+	}
+	if !ended {
+		if w.hook.failPut.CompareAndSwap(1, 0) {
+			w.mu.Lock()
+			w.st("head_write_failures_armed_but_no_write_attempted", 1)
+			w.mu.Unlock()
+		} else {
+			w.mu.Lock()
+			w.st("client_carried_on_after_failed_head_write", 1)
+			w.mu.Unlock()
+		}
+		w.checkpoint()
+		return
+	}
+	w.hook.failPut.Store(0)
+	w.mu.Lock()
+	w.st("client_runs_ended_by_failed_head_write", 1)
+	w.tr("Client.Run ended: %v -> node restarted", runErr)
+	cfg := in.cfg
+	w.mu.Unlock()
+	in.done <- runErr
+	w.stopInstance()
+	w.mu.Lock()
+	ab := w.aborted != ""
+	w.mu.Unlock()
+	if ab {
+		return
+	}
+	cfg.WaitSubscribed = true
+	w.startInstance(cfg)
+	w.checkpoint()
 }
 
 // checkpoint: logical quiescence, then exactness of the stored head.
@@ -806,6 +937,8 @@ func (w *world) exec(o op) {
 		w.flush()
 	case opCheck:
 		w.checkpoint()
+	case opFailHeadWrite:
+		w.failHeadWrite()
 	case opRestart:
 		w.stopInstance()
 		w.mu.Lock()
@@ -836,24 +969,15 @@ func chunkBucket(c uint64) string {
 
 func runCase(r *lib.Run, idx int) {
 	sc := genScript(lib.Rng("C17/script", uint64(idx)))
+	withWriteFailure(sc, idx)
 	w := &world{
-		r: r, idx: idx, sc: sc, bc: blockchain.New(memory.New(), &networks.Sepolia),
+		r: r, idx: idx, sc: sc,
 		byHash: map[string]*event{}, stats: map[string]int{}, baseL2: sc.BaseL2, l2gap: sc.L2Gap,
 		unclamped: os.Getenv("VERIF_C17_UNCLAMPED") == "1",
 		pace:      lib.Rng("C17/pace", uint64(idx)),
 	}
-	// the L1-head feed must only ever carry recorded heads, in order
-	feedSub := w.bc.SubscribeL1Head()
-	feedDone := make(chan struct{})
-	go func() {
-		defer close(feedDone)
-		for h := range feedSub.Recv() {
-			rec := copyHead(h)
-			w.mu.Lock()
-			w.feedHeads = append(w.feedHeads, rec)
-			w.mu.Unlock()
-		}
-	}()
+	w.hook = &hookDB{KeyValueStore: memory.New(), w: w, key: db.L1Height.Key()}
+	w.newProcess()
 
 	// history that exists before the node starts
 	w.mu.Lock()
@@ -908,16 +1032,28 @@ func runCase(r *lib.Run, idx int) {
 		w.mu.Unlock()
 	}
 	w.stopInstance()
-	feedSub.Unsubscribe()
-	<-feedDone
+	w.endProcess()
 
 	w.mu.Lock()
 	defer w.mu.Unlock()
+	if w.aborted == "" && !w.violated {
+		w.judgeReads()
+	}
 	// feed values: a subsequence of the recorded heads
-	j := 0
+	// (Blockchain.SetL1Head announces on the feed before it writes: the head whose write the
+	// harness made fail was announced without being recorded - a database fault is outside the
+	// property's quantifier, so exactly those announcements are set aside)
+	j, unwritten := 0, w.stats["injected_l1_head_write_failures"]
 	for _, fh := range w.feedHeads {
+		j0 := j
 		for j < len(w.heads) && !headEq(&w.heads[j], &fh) {
 			j++
+		}
+		if j == len(w.heads) && unwritten > 0 {
+			unwritten--
+			j = j0
+			w.st("feed_values_of_a_head_whose_write_was_made_to_fail", 1)
+			continue
 		}
 		if j == len(w.heads) {
 			w.violate("feed:value-is-not-a-recorded-head-in-order", fmt.Sprintf("L1-head feed carried L2=%d which is not a (later) recorded head", fh.L2))
